@@ -87,6 +87,62 @@ Fixpoint run_ops (v : version) (st : state) (ops : list bytes) : option (list by
       end
   end.
 
+(* ---- start mode: SnowflakeProxy.Start drives the loop; a session op is observed when its first
+   poll reaches the broker (count, len(ch), Clients of that poll); B = no poll arrives because the
+   loop is parked in tokens.get(); c<i>/d<i> print "-"; E = one more poll arrives, then Stop. *)
+Definition drop_get (st : state) (ls : list label) : list label :=
+  match mn st, ls with
+  | MGetSend, LGet :: ls' => ls'
+  | _, _ => ls
+  end.
+
+Definition poll_print (st : state) : bytes :=
+  bs "c" ++ zdec_print (count (tok st)) ++ bs "h" ++ dec_print (N.of_nat (chlen (tok st))) ++ bs "p" ++
+  zdec_print (reported (tok st)).
+
+Fixpoint start_ops (v : version) (st : state) (ops : list bytes) : option (list bytes) :=
+  match ops with
+  | [] => Some []
+  | o :: ops' =>
+      if beq o (bs "B") then
+        match run_skip v st (drop_get st [LGet]) with
+        | Some st1 =>
+            match start_ops v st1 ops' with
+            | Some r => Some ((match step v st1 LGetSend with None => bs "B1" | Some _ => bs "B0" end) :: r)
+            | None => None
+            end
+        | None => Some [bs "!stuck"]
+        end
+      else
+      let sess_ls := if beq o (bs "E") then Some (pre ++ [LPollShutdown; LMainRecv], true)
+                     else op_labels v (gets st) o in
+      match sess_ls with
+      | Some (LGet :: LGetSend :: rest, _) =>
+          match run_skip v st (drop_get st pre) with
+          | Some st1 =>
+              match run_skip v st1 rest with
+              | Some st2 =>
+                  match start_ops v st2 ops' with
+                  | Some r => Some (poll_print st1 :: r)
+                  | None => None
+                  end
+              | None => Some [bs "!stuck"]
+              end
+          | None => Some [bs "!stuck"]
+          end
+      | Some (ls, _) =>
+          match run_skip v st ls with
+          | Some st' =>
+              match start_ops v st' ops' with
+              | Some r => Some (bs "-" :: r)
+              | None => None
+              end
+          | None => Some [bs "!stuck"]
+          end
+      | None => None
+      end
+  end.
+
 Definition run (args : list bytes) : bytes :=
   match args with
   | [op; c; o] =>
@@ -95,6 +151,15 @@ Definition run (args : list bytes) : bytes :=
       | Some v, Some cp, Some ops =>
           match run_ops v (init cp) ops with
           | Some r => list_print r
+          | None => ERR_BADCASE
+          end
+      | None, Some cp, Some ops =>
+          let v := if beq op (bs "start") then Some V1 else if beq op (bs "start0") then Some V0 else None in
+          match v with
+          | Some v => match start_ops v (init cp) ops with
+                      | Some r => list_print r
+                      | None => ERR_BADCASE
+                      end
           | None => ERR_BADCASE
           end
       | _, _, _ => ERR_BADCASE
